@@ -463,6 +463,43 @@ mod std_part {
         out::count("file_length_change_requests", 27);
     }
 
+    /// The backing file happens to be descriptor number 0 (stdin was closed before it was opened):
+    /// the same requests get the same verdicts. Runs in a forked child.
+    pub fn backing_file_is_descriptor_zero() {
+        use crate::common::fork::{self, Exit};
+        let ex = fork::run(20, || {
+            use std::os::fd::AsRawFd;
+            // SAFETY: in the forked child only.
+            unsafe { libc::close(0) };
+            let f = std::sync::Arc::new(temp_file(4096));
+            let fd = f.as_raw_fd();
+            let mut report = vec![fd as u8];
+            let rw = libc::PROT_READ | libc::PROT_WRITE;
+            for (off, size) in [(0u64, 4096usize), (0, 8192), (4096, 1), (u64::MAX - 4095, 4096), (0, 4097)] {
+                // both requests go through descriptor 0 itself (shared by Arc, not duplicated)
+                let res = MmapRegion::<()>::build(Some(FileOffset::from_arc(f.clone(), off)), size, rw, libc::MAP_SHARED | libc::MAP_NORESERVE);
+                let res2 = MmapRegion::<()>::from_file(FileOffset::from_arc(f.clone(), off), size);
+                report.push(res.is_ok() as u8);
+                report.push(res2.is_ok() as u8);
+            }
+            report
+        });
+        match ex {
+            Exit::Ok(rep) if rep.len() == 11 => {
+                let want = [1u8, 1, 0, 0, 0, 0, 0, 0, 0, 0];
+                if rep[0] != 0 {
+                    out::note("C15/descriptor-zero/file-did-not-get-descriptor-0", jobj! {"fd" => rep[0]});
+                }
+                if rep[1..] != want {
+                    v("descriptor-zero/verdicts-differ-from-the-predicate", jobj! {"fd_of_the_file" => rep[0], "got_ok" => J::dbg(&rep[1..].to_vec()), "want_ok" => J::dbg(&want.to_vec())});
+                }
+                out::key(&format!("descriptor-zero|fd{}", rep[0]), true);
+            }
+            other => out::note("C15/descriptor-zero-child-inconclusive", J::dbg(&other)),
+        }
+        out::eval(10);
+    }
+
     pub fn check_file_offset_grid() {
         for fl in [0u64, 1, 4095, 4096, 4097, 8192] {
             let f = temp_file(fl);
@@ -851,6 +888,7 @@ pub fn run(args: &Args) {
             std_part::raw_ptr_grid(&mut stats);
             std_part::block_device_backing(&mut stats);
             std_part::file_length_changes(&mut stats);
+            std_part::backing_file_is_descriptor_zero();
             std_part::guest_base_grid();
             std_part::random(args, &mut stats);
         });
